@@ -350,7 +350,12 @@ pub fn visit_gather(curs: &TreeCursor, ctx: &mut Context, ws: &Workspace, symbol
             }
             register(&txt,loc,&node,symbols,None,ctx,fwd);
         }  else if child.unwrap().kind()=="local_label" {
-            if no_fwd && !symbols.child_defined(&txt,ctx.curr_scope().unwrap()) {
+            // a local label can be referenced before any global label has opened a scope
+            let defined = match ctx.curr_scope() {
+                Some(scope) => symbols.child_defined(&txt,scope),
+                None => false
+            };
+            if no_fwd && !defined {
                 fwd.push(LabelType::Local);
             }
             register_child(&txt,loc,&node,symbols,ctx,fwd);
